@@ -377,6 +377,12 @@ func progAliases() *Program {
 		anno(fld(1, "inner_name", T(I32)), "api.key", "innerAlias"),
 		anno(fld(2, "body_nested", T(I32)), "api.body", "bodyNested"))
 	nested.Fields[1].Feat = "alias:api.body,nested"
+	below := func(name string) *Struct {
+		st := f.AddStruct("struct", name, anno(fld(1, "body_below", T(I32)), "api.body", "bodyBelow"+name), fld(2, "other", T(String)))
+		st.Fields[0].Feat = "alias:api.body,below-container"
+		return st
+	}
+	inList, inMap, inSet, inLL := below("InList"), below("InMap"), below("InSet"), below("InLL")
 	req := f.AddStruct("struct", "Req",
 		fld(1, "plain", T(I32)),
 		feat(anno(fld(2, "keyed", T(I32)), "api.key", "keyAlias"), "alias:api.key"),
@@ -390,6 +396,12 @@ func progAliases() *Program {
 		feat(anno(fld(9, "victim", T(I32)), "api.key", "moved"), "alias:equals-other-name"),
 		fld(10, "nested", Ref(nested)),
 		feat(anno(fld(11, "spaced", T(I32)), "api.key", "with space"), "alias:api.key,punct"),
+		// structs with an api.body field whose FIRST (and only) occurrence is below a container: the root's
+		// "body root" mark must not reach them through list / set / map
+		fld(12, "in_list", ListOf(Ref(inList))),
+		fld(13, "in_map", MapOf(T(String), Ref(inMap))),
+		fld(14, "in_set", SetOf(Ref(inSet))),
+		fld(15, "in_list_of_list", ListOf(ListOf(Ref(inLL)))),
 	)
 	resp := f.AddStruct("struct", "Resp", fld(1, "ok", T(Bool)), feat(anno(fld(2, "out", T(String)), "api.key", "OUT"), "alias:api.key"))
 	wrapService(f, req, resp)
